@@ -59,6 +59,7 @@ type Run struct {
 	Assumptions []string
 	harnessErr []string
 	kinds      map[string]int
+	child      bool
 }
 
 // Args parsed from the command line of every harness binary.
@@ -125,6 +126,18 @@ func NewRun(id, tier, level string) *Run {
 func (r *Run) Violation(tags []string, msg string, replay interface{}) bool {
 	r.mu.Lock()
 	defer r.mu.Unlock()
+	if r.child {
+		// keep at most 5 per kind so that frequent (e.g. known) kinds cannot crowd out a new one
+		if r.kinds == nil {
+			r.kinds = map[string]int{}
+		}
+		k := strings.Join(tags, ",") + "|" + strings.SplitN(msg, "\n", 2)[0]
+		r.kinds[k]++
+		if r.kinds[k] <= 5 {
+			r.violations = append(r.violations, Violation{Property: r.ID, Tags: tags, Message: msg, Replay: replay})
+		}
+		return true
+	}
 	for _, k := range r.known {
 		for _, t := range tags {
 			if t == k.Tag {
@@ -138,7 +151,7 @@ func (r *Run) Violation(tags []string, msg string, replay interface{}) bool {
 		r.kinds = map[string]int{}
 	}
 	r.kinds[strings.SplitN(msg, "\n", 2)[0]]++
-	if len(r.violations) < r.maxReport {
+	if len(r.violations) < r.maxReport || (r.kinds[strings.SplitN(msg, "\n", 2)[0]] == 1 && len(r.kinds) <= 25) {
 		dir := filepath.Join(Root(), "replays")
 		os.MkdirAll(dir, 0o755)
 		v.Path = filepath.Join(dir, fmt.Sprintf("%s-%s-%d.json", r.ID, r.Tier, len(r.violations)+1))
